@@ -85,6 +85,11 @@ def run(ctx):
         sid[0] += 1
         scenarios.append(lc.recipe_double_claim(sid[0]))
         expected[sid[0]] = ("Code_ClaimNotAtomic", "LockUnowned")
+    if not lc.dev_open(ctx, "Code_AllClaimedCrashes"):
+        # task reuse with a failing claimer (hand-scheduled like the double claim: three calls in flight); nothing is expected to
+        # go wrong: the task stays with the environment that locked it
+        sid[0] += 1
+        scenarios.append(lc.recipe_failed_claimer(sid[0]))
     # 3. scenarios walked by TLC
     nseq, npar, nreuse, nros, novt = (30, 40, 12, 25, 20) if quick else (250, 400, 100, 200, 150)
     common = dict(Envs={"e1", "e2", "e3"}, TaskIds={"k%d" % i for i in range(1, 17)}, BasicChoices=[{"a"}, {"a", "b"}],
